@@ -85,7 +85,8 @@ class Registry:
         self.assumptions: list[str] = []
         self.lemmas: list[Any] = []
         self.groups: dict[str, list[str]] = {}
-        self.symbolic_consts: dict[str, str] = {}  # property id -> contract keys verified for it
+        self.symbolic_consts: dict[str, str] = {}
+        self.const_checks: list[dict] = []  # property id -> contract keys verified for it
         self._file: str | None = None
 
     # ------------------------------------------------------------ sidecar API
@@ -179,6 +180,10 @@ class Registry:
     def symbolic_const(self, key: str, type_: str) -> None:
         """A module-level constant computed at import time (sysconf, platform): treated as an unknown of the given type."""
         self.symbolic_consts[key] = type_
+
+    def const_check(self, prop: str, file: str, name: str, pred: str, why: str) -> None:
+        """An obligation on a module-level constant of the repository (evaluated from the current source on every run)."""
+        self.const_checks.append({"property": prop, "file": file, "name": name, "pred": pred, "why": why})
 
     def ghost(self, **fields: str) -> None:
         self.ghost_fields.update(fields)
